@@ -69,6 +69,36 @@ def target_by_id(x, mid):
     return lambda b: And(b.p, b.mid.z == Z(mid))
 
 
+CONN_ATTRS = ("_app", "_side", "_did_allocate", "_listening", "_did_claim", "_nameplate_id", "_did_release",
+              "_did_open", "_mailbox", "_mailbox_id", "_did_close")
+
+
+def conn_state(c):
+    """the connection's protocol state as comparable values (objects by identity)"""
+    out = {}
+    for k in CONN_ATTRS:
+        v = getattr(c, k, None)
+        out[k] = v
+    return out
+
+
+def conn_state_same(a, b):
+    parts = []
+    for k in CONN_ATTRS:
+        x, y = a[k], b[k]
+        if isinstance(x, (str, SBool, bool)) or isinstance(y, (str, SBool, bool)):
+            if (x is None) != (y is None):
+                parts.append(F)
+            elif isinstance(x, str) or isinstance(y, str):
+                parts.append(eqv(x, y))
+            else:
+                from sx.engine import tobool
+                parts.append(tobool(x) == tobool(y))
+        else:
+            parts.append(x is y)
+    return And(*parts)
+
+
 def ack_ok(frames, msg):
     """first frame is an ack echoing the id"""
     if not frames or ftype(frames[0]) != "ack":
@@ -847,6 +877,7 @@ def step_any(e, tier="quick", usage=False, types=None):
         kf = And(pres["mailbox"], kf_d6_term(x, val["mailbox"]))
         if ty == "close" and mb_id is not None and held is None:
             kf = Or(kf, kf_d6_term(x, mb_id))
+    before = conn_state(c)
     ex = w.deliver(c, msg)
     fr = step_frames(c)
     types_ = [ftype(r) for r in fr]
@@ -895,6 +926,8 @@ def step_any(e, tier="quick", usage=False, types=None):
         shape = (types_ == ["ack", "error"] and fr[1]["frame"].get("orig") is msg)
     others_quiet = all(len(step_frames(o)) == 0 for o in w.conns if o is not c)
     A["C17.proto_error"] = Implies(err, And(shape, store_unchanged(pre, post), others_quiet))
+    # ... and leaves the connection exactly as usable as before
+    A["C17.conn_unchanged"] = Implies(err, conn_state_same(before, conn_state(c)))
     # a command that is not a protocol error is never answered by a protocol error
     soft = ("error" in types_ and not (types_ == ["ack", "error"] and
                                       fval(fr[1], "error") in ("crowded", "reclaimed") and
